@@ -204,3 +204,68 @@ def _build_command_contract():
 
 
 _build_command_contract()
+
+
+# ---------------------------------------------------------------------------------------------- checksum (C18 d)
+def _xorfold_native(text):
+    r = 0
+    for byte in bytearray(text.encode("utf-8")):
+        r ^= byte
+    return r
+
+
+def _checksum_contract():
+    """GcodeParser.computeChecksum(value) is the left fold of ^ over the UTF-8 bytes of the text, starting from 0, and
+    lies in 0..255 -- for texts of ANY length (loop invariant over the symbolic byte sequence).  The bytes and ^ are the
+    assumed builtin contracts listed in the evidence (uninterpreted byte sequence in 0..255; xor with identity 0 and
+    closed on 0..255)."""
+    from pyvc.contracts import Contract
+    c = REGISTRY.contracts.setdefault(GP + "computeChecksum", Contract(GP + "computeChecksum"))
+    c.pre(lambda b: {"self": None, "args": {"value": b.string("value")}})
+    c.modifies()
+
+    def fold_to(text, k=None):
+        import z3
+        from pyvc.stubs import sstr_to_z3, UTF8_XORFOLD, UTF8_LEN
+        zs = z3.StringVal(text) if isinstance(text, str) else sstr_to_z3(text)
+        return UTF8_XORFOLD(zs, UTF8_LEN(zs) if k is None else k)
+
+    c.loop(0, invariant=lambda L, k: And(eq(L.checksum, fold_to(L.value, k)), L.checksum >= 0, L.checksum <= 255),
+           havoc={"checksum": "int"}, scratch=["byte"])
+
+    def spec(f):
+        if getattr(f, "native", False):
+            return isinstance(f.result, int) and f.result == _xorfold_native(f.a.value) and 0 <= f.result <= 255
+        return And(eq(f.result, fold_to(f.a.value)), f.result >= 0, f.result <= 255)
+    c.ensures("C18.checksum-is-the-xor-fold-of-the-bytes", spec, props=("C18",))
+    c.result("int")
+    c.use_modular()
+
+
+_checksum_contract()
+
+
+def _validate_contract():
+    """GcodeParser.validate(): raises ValueError exactly when only one of line number / checksum is present, or when
+    the checksum differs from computeChecksum(leadingWhitespace + text); otherwise returns None; changes nothing."""
+    from pyvc.contracts import Contract
+    c = REGISTRY.contracts.setdefault(GP + "validate", Contract(GP + "validate"))
+    c.pre(lambda b: {"self": mk_full_parser(b), "args": {}})
+    c.modifies()
+
+    def must_raise(f):
+        p = f.self
+        if getattr(f, "native", False):
+            has_c, has_n = p._checksum is not None, p._lineNumber is not None
+            return (has_c != has_n) or (has_c and p._checksum != _xorfold_native(p.leadingWhitespace + p.text))
+        import z3
+        from pyvc.stubs import sstr_to_z3, UTF8_XORFOLD, UTF8_LEN
+        has_c, has_n = Not(is_none(p._checksum)), Not(is_none(p._lineNumber))
+        zs = z3.Concat(sstr_to_z3(p.leadingWhitespace), sstr_to_z3(p.text))
+        want = UTF8_XORFOLD(zs, UTF8_LEN(zs))
+        return Or(And(has_c, Not(has_n)), And(has_n, Not(has_c)), And(has_c, Not(eq(val(p._checksum), want))))
+    c.raises("ValueError", when=must_raise)
+    c.ensures("C18.validate-returns-none", lambda f: f.result is None, props=("C18",))
+
+
+_validate_contract()
